@@ -20,6 +20,7 @@ def run(ck):
     timeouts.spec_incr(ck, 'incr_sent_frames')
     ck.plans.append(relay.relay_replay_plan)
     relay.check_copy_half(ck, max_turns=2)
+    relay.check_copy_half_abort(ck)
     ck.plans.append(accesslog.replay_plan)
     accesslog.spec_log_thread(ck, nevents=3 if ck.tier == 'quick' else 4)
     ck.post_filter = lambda o: o.label.startswith('C16/') or o.status in ('undecided', 'vacuous', 'inconclusive')
